@@ -61,11 +61,14 @@ BOUNDS = {
 MAX_SIGNAL_RANGE_PRESET_OK = True
 
 
+ALLOW_BASE_FORMATS = [False]  # set only by the real-level arm of C01 (QSIF-sized pictures)
+
+
 def scope_check(key, value):
     lim = BOUNDS.get(key)
     if lim is not None and isinstance(value, int) and value > lim:
         raise OutOfScope("%s=%r above bound %d" % (key, value, lim))
-    if key == "custom_dimensions_flag" and value is False:
+    if key == "custom_dimensions_flag" and value is False and not ALLOW_BASE_FORMATS[0]:
         # every base video format is at least 176x120
         raise OutOfScope("base-format-sized picture")
 
@@ -119,6 +122,20 @@ def use_permissive_levels():
             row["level"] = ValueSet(int(lvl))
             _LEVEL_CONSTRAINTS.append(row)
         _LEVEL_MODE[0] = "permissive"
+
+
+import contextlib as _contextlib  # noqa: E402
+
+
+@_contextlib.contextmanager
+def level_mode(real):
+    """Temporarily select the real or the stub level value table."""
+    before = _LEVEL_MODE[0]
+    (use_real_levels if real else use_permissive_levels)()
+    try:
+        yield
+    finally:
+        (use_real_levels if before == "real" else use_permissive_levels)()
 
 
 def use_real_levels():
